@@ -70,3 +70,11 @@ theorem eq_of_two_vi {N : Nat} (x p p' : Vec ℝ N) (h1 : ip1 (x.sub p) (p'.sub 
   linarith
 end QM.C04
 
+namespace QM.C05
+open QM.C04
+variable {d : Nat}
+/-- block-wise PSD projection on the flat vector of `m` operators (POVM elements; m-process outcomes through the Choi basis) -/
+noncomputable def psdProjBlocks (B : Vector (Mat ℂ d d) (d * d)) (hB : OrthoN (basisM B)) (hH : HermB B) (m : Nat)
+    (v : Vec ℝ (m * (d * d))) : Vec ℝ (m * (d * d)) :=
+  flatten (Vector.ofFn fun k : Fin m => psdProj B hB hH (unflatten v)[k] : Mat ℝ m (d * d))
+end QM.C05
